@@ -34,7 +34,7 @@ LOWER = {
  "C17": "function entry/exit probes: the ideal machine fires entry once before the first original event and exit before ret however reached (fall-through, return, branch to the function label, tail call) and before unreachable / throw, never when an op traps; bodies contain try_table blocks; also on a function that was built and replaced an import in a module without local functions; compared as event logs on every path; results of arity 1 and 2 (multi-value) compared by value",
  "C18": "block-entry probes on block/loop/if/else: ideal fires on entering the body/arm incl. every loop back-edge; compared on every path",
  "C19": "block-exit probes: ideal fires when the body falls through to its own end (if: then-arm to its else/end), never on branches; bodies include constructs nested in if-arms",
- "C20": "semantic-after on block/if/else and on br/br_if/br_table with non-loop targets: ideal fires on arrival after the construct / once per executed branch; compared on every path. NOT covered: br_on_* (reference-typed branches are outside the execution model; seeded change C20-br-on-cast-fail-fallthrough-dropped is not caught)",
+ "C20": "semantic-after on block/if/else and on br/br_if/br_table/br_on_null with non-loop targets: ideal fires on arrival after the construct / once per executed branch; compared on every path. br_on_null is covered (references as integers); NOT covered: br_on_non_null / br_on_cast / br_on_cast_fail, whose branches carry a reference to the label (seeded change C20-br-on-cast-fail-fallthrough-dropped is not caught)",
  "C21": "block-alternate on block/loop/if/else (with and without replacement code, with before/after elsewhere): decoded output must equal ProbeIdeal!Splice (region removed, replacement in place)",
  "C22": "every accepted special-mode injection through ModuleIterator, ComponentIterator (each at the current location and through inject_at) and FunctionModifier (location and inject_at) must leave its probe in the encoded body and no 'BUG:' record in the log",
 }
